@@ -370,7 +370,7 @@ func c38GenCommands(seed uint64) map[string][]c38Case {
 
 	r := kit.SubRand(seed, "C38/cmd/soup")
 	fr = nil
-	for i := 0; i < kit.N(1500, 40000); i++ {
+	for i := 0; i < kit.N(1000, 40000); i++ {
 		n := r.Range(1, 14)
 		var parts []string
 		for j := 0; j < n; j++ {
@@ -389,7 +389,7 @@ func c38GenCommands(seed uint64) map[string][]c38Case {
 	seedsQ := []string{"select * from tbl_shard where id = 1", "select a, count(*) from tbl_shard where id in (1,2,3) group by a order by a limit 3",
 		"insert into tbl_shard (id, a) values (1, 'v')", "update tbl_shard set a = 2 where id between 1 and 3", "delete from tbl_shard where id = 2",
 		"select * from t2 join tbl_shard on t2.id = tbl_shard.id where tbl_shard.id = 4", "set names utf8mb4", "show variables like 'x'", "use db", "select 1; select 2"}
-	for i := 0; i < kit.N(1500, 40000); i++ {
+	for i := 0; i < kit.N(1000, 40000); i++ {
 		b := []byte(r.Pick(seedsQ))
 		for k := r.Range(1, 3); k > 0 && len(b) > 0; k-- {
 			p := r.Intn(len(b))
@@ -783,7 +783,7 @@ func c38LexTexts(seed uint64, label string) []string {
 		add("select id from t2 " + u + " where id = ?") // the form named in the report: a unit in the middle, text goes on after it
 		add("select id from t2 " + u + "\n where id = ?")
 	}
-	step := kit.N(3, 1)
+	step := kit.N(4, 1)
 	k := int(seed % uint64(step))
 	for _, a := range c38LexUnits {
 		for _, b := range c38LexUnits {
